@@ -196,3 +196,10 @@ package engine
 //@ func (s *session) findResumeExit
 //@   assigns computed
 //@   ensures_trusted [runs_frame] s.runs == old(s.runs) && (forall k int {s.runs[k]} :: (0 <= k && k < len(s.runs)) ==> s.runs[k] == old(s.runs[k])) && s.status == old(s.status) && s.pushedFlow == old(s.pushedFlow) && (forall r *runs.run {r.status} :: r != run.(*runs.run) ==> r.status == old(r.status)) && same("runs.run::parent") && (run.(*runs.run).status == old(run.(*runs.run).status) || run.(*runs.run).status == flows.RunStatusFailed) && (!isnil(result0) ==> isActive(run)) && (!isnil(result2) ==> isnil(result0))
+
+// ---- C03 (last seen): receiving a message moves the contact's last seen on to the time of that message, whatever it was before
+//@ func (s *session) SetInput
+//@   requires s != nil
+//@   ensures [input_set] s.input == input
+//@   ensures [last_seen_follows] (!isnil(input) && s.contact != nil) ==> (s.contact.lastSeenOn != nil && instant(deref(s.contact.lastSeenOn)) == instant(input.CreatedOn()))
+//@   ensures [otherwise_untouched] (isnil(input) && s.contact != nil) ==> s.contact.lastSeenOn == old(s.contact.lastSeenOn)
